@@ -122,8 +122,58 @@ func (wg *WeightedAuthorizationModelGraph) HasEdge(fromNode, toNode *WeightedAut
 	return false
 }
 
+// hasRewriteOnlyCycle reports whether some cycle of the graph can be traversed without any tuple, i.e. uses
+// only rewrite and computed edges (a direct or TTU edge always needs a tuple). Such a model can never be
+// evaluated, whatever else it contains. The check does not depend on the order in which nodes are visited.
+func (wg *WeightedAuthorizationModelGraph) hasRewriteOnlyCycle() bool {
+	const (
+		inProgress = 1
+		done       = 2
+	)
+
+	state := make(map[string]int, len(wg.nodes))
+
+	var visit func(nodeID string) bool
+	visit = func(nodeID string) bool {
+		state[nodeID] = inProgress
+
+		for _, edge := range wg.edges[nodeID] {
+			if edge.edgeType != RewriteEdge && edge.edgeType != ComputedEdge {
+				continue
+			}
+
+			switch state[edge.to.uniqueLabel] {
+			case inProgress:
+				return true
+			case done:
+				continue
+			}
+
+			if visit(edge.to.uniqueLabel) {
+				return true
+			}
+		}
+
+		state[nodeID] = done
+
+		return false
+	}
+
+	for nodeID := range wg.nodes {
+		if state[nodeID] == 0 && visit(nodeID) {
+			return true
+		}
+	}
+
+	return false
+}
+
 // AssignWeights assigns weights to all the edges and nodes of the graph.
 func (wg *WeightedAuthorizationModelGraph) AssignWeights() error {
+	if wg.hasRewriteOnlyCycle() {
+		return ErrModelCycle
+	}
+
 	visited := make(map[string]bool)
 	ancestorPath := make([]*WeightedAuthorizationModelEdge, 0)
 	tupleCycleDependencies := make(map[string][]*WeightedAuthorizationModelEdge)
